@@ -10,7 +10,7 @@ META = {
                   "apps/asconcrypt/fileops.c: safe_file_{open_read,open_write,read,write,close,delete}", "apps/asconsum/asconsum.c: hash_file, check_file, to_hex_digit, *_file read loops"],
     "bounds": "file sizes {0,1,15,16,17,31,32,33,48,63,64,65,69} with the I/O buffer scaled to 32 bytes (BUFSIZ redefinition; the logic is size-generic); contents, passwords, file names symbolic; "
               "every read/write/open and the random source may fail under a symbolic fault schedule (hard error, EINTR/EAGAIN, short transfer, zero-length write)",
-    "outside": "whole-process behaviour: real getopt, terminal prompting, signals; crash of the writer other than as a truncated input; cryptographic tamper detection (decided in C02); real BUFSIZ (8192)",
+    "outside": "asconsum check mode (check_file line parser: queries written, harness/C19/sum.c KIND 2/3, but they do not finish within budget) and the asconcrypt encrypt->decrypt round trip; whole-process behaviour: real getopt, terminal prompting, signals; crash of the writer other than as a truncated input; cryptographic tamper detection (decided in C02); real BUFSIZ (8192)",
     "assumptions": ["POSIX I/O modelled by harness/C19 stubs (read/write may return -1 with EINTR/EAGAIN/EIO or a short count)", "crypto replaced by tracking stubs in the fault/format queries",
                     "snprintf/printf/fprintf/perror/getopt/getpass contract stubs"],
     "explanation": "bounded model checking of the tool functions with a modelled file system and fault schedule",
